@@ -1707,15 +1707,26 @@ impl Fsm {
                                         if inv.doc_id == invoke_doc_id {
                                             toFinalize.push(inv.finalize);
                                         }
-                                        if inv.autoforward {
-                                            toForward.push(invokeId.clone());
-                                        }
                                     }
                                 }
                             }
                         }
                     }
                 };
+            }
+            // Every external event is forwarded to all active sessions invoked with 'autoforward',
+            // not only the events that come from such a session.
+            for (invokeId, session) in &get_global!(datamodel).child_sessions {
+                if let Some(state_id) = session.state_id {
+                    let state = self.get_state_by_id(state_id);
+                    if state
+                        .invoke
+                        .iterator()
+                        .any(|inv| inv.doc_id == session.invoke_doc_id && inv.autoforward)
+                    {
+                        toForward.push(invokeId.clone());
+                    }
+                }
             }
             datamodel.set_event(&externalEvent);
             for finalizeContentId in toFinalize {
